@@ -232,11 +232,12 @@ def layer_a_minmax_units(quick: bool) -> List[Tuple[str, List[Dict[str, Any]]]]:
                         if term == "END-OF-PDU" and follower:
                             continue
                         for order in ((True, False) if base == "A_UNICODE2STRING" else (None,)):
-                            pid = f"mm_{base[2:5]}_{term[:2]}_{mn}_{mx}_{'f' if follower else 'l'}_{ {True: 'h', False: 'l', None: 'n'}[order]}"
-                            dct = {"k": "MINMAX", "base": base, "min": mn, "max": mx, "term": term}
-                            if order is not None:
-                                dct["hilo"] = order
-                            progs.append(one_value_program(pid, {"dct": dct}, None, None, vals, ("minmax", base, term), follower=follower))
+                            for byte in (None, 1):  # byte 1: the value starts at an odd offset of the PDU
+                                pid = f"mm_{base[2:5]}_{term[:2]}_{mn}_{mx}_{'f' if follower else 'l'}_{ {True: 'h', False: 'l', None: 'n'}[order]}_{'a' if byte is None else byte}"
+                                dct = {"k": "MINMAX", "base": base, "min": mn, "max": mx, "term": term}
+                                if order is not None:
+                                    dct["hilo"] = order
+                                progs.append(one_value_program(pid, {"dct": dct}, byte, None, vals, ("minmax", base, term), follower=follower))
         finally:
             SYMS[kind] = SYMS_backup
     return [("A/minmax", progs)]
@@ -352,6 +353,12 @@ def library() -> List[Dict[str, Any]]:
         {"kind": "struct", "name": "S_sized", "byte_size": 3, "params": [P("VALUE", "a", dop="u8")]},
         {"kind": "struct", "name": "S_item", "params": [P("VALUE", "a", dop="u8"), P("VALUE", "b", dop="u8")]},
         {"kind": "struct", "name": "S_one", "params": [P("VALUE", "a", dop="u8")]},
+        {"kind": "struct", "name": "S_dyn", "params": [P("VALUE", "a", dop="u8"), P("VALUE", "s", dop="bz")]},
+        {"kind": "eopfield", "name": "EOPD", "of": "S_dyn"},
+        {"kind": "dlfield", "name": "DLD", "of": "S_dyn", "offset": 1, "count": {"byte": 0, "dop": "u8"}},
+        {"kind": "emfield", "name": "EMD", "of": "S_dyn", "end_dop": "u8", "term": "255"},
+        {"kind": "mux", "name": "MUXD", "byte": 1, "key": {"byte": 0, "dop": "u8"},
+         "cases": [{"name": "c0", "lo": 1, "hi": 1, "struct": "S_dyn"}, {"name": "c1", "lo": 2, "hi": 2, "struct": "S_item"}]},
         {"kind": "sfield", "name": "SF2", "of": "S_item", "n": 2, "item_size": 2},
         {"kind": "sfield", "name": "SF2p", "of": "S_item", "n": 2, "item_size": 3},
         {"kind": "dlfield", "name": "DL1", "of": "S_item", "offset": 1, "count": {"byte": 0, "dop": "u8"}},
@@ -425,6 +432,15 @@ def templates() -> Dict[str, Any]:
     reg("MUXn", None, lambda i: [{f"my{i}": ("c0", _item(1, 2))}, {f"my{i}": ("c1", {"a": 3, "b": 0x1234})}], lambda i: [P("VALUE", f"my{i}", dop="MUXn")])
     reg("MUXe", None, lambda i: [{f"mz{i}": ("c0", _item(1, 2))}, {f"mz{i}": ("c1", {})}, {f"mz{i}": ("dflt", {"a": 4})}],
         lambda i: [P("VALUE", f"mz{i}", dop="MUXe")])
+    def _d(a: int, sv: bytes) -> Dict[str, Any]:
+        return {"a": a, "s": sv}
+
+    reg("SDYN", None, lambda i: [{f"sd{i}": _d(1, b"")}, {f"sd{i}": _d(2, b"\x41")}, {f"sd{i}": _d(3, b"\x41\x42\x43")}], lambda i: [P("VALUE", f"sd{i}", dop="S_dyn")])
+    reg("EOPD", None, lambda i: [{f"ed{i}": []}, {f"ed{i}": [_d(1, b""), _d(2, b"\x41")]}, {f"ed{i}": [_d(1, b"\x41\x42\x43"), _d(2, b""), _d(3, b"\x41")]}],
+        lambda i: [P("VALUE", f"ed{i}", dop="EOPD")], last_only=True)
+    reg("DLD", None, lambda i: [{f"dd{i}": [_d(1, b"\x41"), _d(2, b"")]}, {f"dd{i}": [_d(1, b"\x41\x42\x43")]}], lambda i: [P("VALUE", f"dd{i}", dop="DLD")])
+    reg("EMD", None, lambda i: [{f"emd{i}": [_d(1, b"\x41"), _d(2, b"")]}, {f"emd{i}": [_d(7, b"")]}], lambda i: [P("VALUE", f"emd{i}", dop="EMD")], last_only=True)
+    reg("MUXD", None, lambda i: [{f"mxd{i}": ("c0", _d(1, b"\x41"))}, {f"mxd{i}": ("c0", _d(1, b""))}, {f"mxd{i}": ("c1", _item(1, 2))}], lambda i: [P("VALUE", f"mxd{i}", dop="MUXD")])
     reg("DTC", 3, lambda i: [{f"dt{i}": 0x123456}, {f"dt{i}": "P0001"}], lambda i: [P("VALUE", f"dt{i}", dop="dtc3")])
     reg("DTCENV", None, lambda i: [{f"dtc{i}": 1, f"env{i}": {"e_all": 5}}, {f"dtc{i}": 0x123456, f"env{i}": {"e_all": 5, "e_spec": 0x1234}}],
         lambda i: [P("VALUE", f"dtc{i}", dop="dtc3"), P("VALUE", f"env{i}", dop=f"@ENV@{i}")])
@@ -439,8 +455,8 @@ def templates() -> Dict[str, Any]:
 
 
 SIGMA_FULL = ["CC8", "CC16L", "CCNIB", "PC", "V8", "V12b", "VLIN", "VDEF", "VTT", "RES8", "RES4", "SYS", "LK", "TKS", "TKSROW", "SFLAT",
-              "SSUB", "SNEST", "SSIZED", "SF2", "SF2p", "DL1", "DL2", "EOP", "EMLAST", "EMCC", "MUXd", "MUXn", "MUXe", "DTC", "DTCENV", "BZ", "BEOP", "LEAD"]
-SIGMA_3 = ["CC8", "V8", "V12b", "VDEF", "RES8", "LK", "TKS", "SFLAT", "SSIZED", "SF2p", "DL1", "EOP", "MUXd", "DTCENV", "BZ"]
+              "SSUB", "SNEST", "SSIZED", "SF2", "SF2p", "DL1", "DL2", "EOP", "EMLAST", "EMCC", "MUXd", "MUXn", "MUXe", "SDYN", "EOPD", "DLD", "EMD", "MUXD", "DTC", "DTCENV", "BZ", "BEOP", "LEAD"]
+SIGMA_3 = ["CC8", "V8", "V12b", "VDEF", "RES8", "LK", "TKS", "SFLAT", "SSIZED", "SF2p", "DL1", "EOP", "MUXd", "DTCENV", "BZ", "SDYN", "EOPD"]
 SIGMA_4 = ["CC8", "V12b", "SSIZED", "DL1", "MUXd", "BZ"]
 MODES = ["auto", "at", "hole"]
 
